@@ -361,3 +361,6 @@ func SemanticErrorCases() []*SemanticError {
 	}, []string{"t/v1/a.j5s", "t/v1/b.proto"})
 	return out
 }
+
+// RuleProgram renders the declaration alone in its object and file.
+func RuleProgram(rs *RuleSpec) *Program { return rs.program() }
